@@ -479,6 +479,35 @@ pub fn check(c: &Case) -> R {
         expect_exact(&items, &want, "round trip (writer output)", &written, io)?;
     }
 
+    // (1b) second generation: the Record objects the reader hands out (not records built from parts), written
+    // again with the same writer settings, give the same bytes: lossless in both directions
+    {
+        let mut again: Vec<u8> = Vec::new();
+        let mut count = 0usize;
+        match kind {
+            Kind::Fasta => {
+                let mut w = fasta::Writer::new(&mut again);
+                w.set_linewrap(c.wrap);
+                for r in fasta::Reader::new(&written[..]).records().take(cap_items) {
+                    let Ok(r) = r else { fail!("plain fasta::Reader over the writer output {} yields an error: {:?}", show_bytes(&written), r.err()) };
+                    ensure!(w.write_record(&r).is_ok(), "fasta::Writer::write_record failed for a record obtained from the reader");
+                    count += 1;
+                }
+                ensure!(w.flush().is_ok(), "fasta::Writer::flush failed");
+            }
+            Kind::Fastq => {
+                let mut w = fastq::Writer::new(&mut again);
+                for r in fastq::Reader::new(&written[..]).records().take(cap_items) {
+                    let Ok(r) = r else { fail!("plain fastq::Reader over the writer output {} yields an error", show_bytes(&written)) };
+                    ensure!(w.write_record(&r).is_ok(), "fastq::Writer::write_record failed for a record obtained from the reader");
+                    count += 1;
+                }
+                ensure!(w.flush().is_ok(), "fastq::Writer::flush failed");
+            }
+        }
+        ensure!(count == c.recs.len() && again == written[..], "records read from the writer output {} and written again (write_record, same line wrap) give {}: {} records, {} were written", show_bytes(&written), show_bytes(&again), count, c.recs.len());
+    }
+
     // (2) harness layout: re-wrapped lines / CRLF / optional last terminator
     let relaid = Rc::new(render(kind, &c.recs, &c.layout));
     for io in c.ios.iter().take(2) {
